@@ -325,3 +325,14 @@ func flattenCData(el *etree.Element) {
 		}
 	}
 }
+
+// DigestB64 hashes data with the digest named by alg and returns base64.
+func DigestB64(alg string, data []byte) (string, error) {
+	h, ok := hashOfDigest[alg]
+	if !ok {
+		return "", fmt.Errorf("unknown digest %q", alg)
+	}
+	hh := h.New()
+	hh.Write(data)
+	return base64.StdEncoding.EncodeToString(hh.Sum(nil)), nil
+}
